@@ -11,6 +11,7 @@
 import Gotree.Model.C11
 import Gotree.Spec.Splits
 import Gotree.Model.Dump
+import Gotree.Model.C10
 
 namespace Gotree.C11
 open Gotree
@@ -165,6 +166,29 @@ def fbpSupports (ref : T) (sent : List (List Nat)) (ntrees : Nat) : List (Option
         some ((((sent.map (fun l => l.count i)).sum : Nat) : Rat) / ((ntrees : Nat) : Rat))
       else none
     | none => none
+
+/-! ### `support.TBE`: the per-bootstrap-tree fan-out over the reference branches
+
+  For one bootstrap tree `b` the items of the pool are the branches of the reference tree (position in
+  `Edges()` order, the branch, its raw support so far); what a worker does with one of them
+  (tbe.go:241-262) is `Gotree.C10.tbeEdge` of the sequential model of C10: each worker touches only the
+  support cell of the branch it received. -/
+
+abbrev TbeItem := Nat × SplitE × Rat
+
+def tbeItemFn (r b : T) (x : TbeItem) : Nat × Rat := (x.1, Gotree.C10.tbeEdge r b x.2.1 x.2.2)
+
+/-- the items of one fan-out -/
+def tbeItems (r : T) (sups : List Rat) : List TbeItem :=
+  (List.range r.splits.length).zip (r.splits.zip sups)
+
+/-- the raw supports after one fan-out, from what the workers delivered (none if a branch is missing) -/
+def tbeCollect (n : Nat) (out : List (Nat × Rat)) : Option (List Rat) :=
+  (List.range n).mapM fun i => (out.find? (·.1 == i)).map (·.2)
+
+/-- `NormalizeTransferDistancesByDepth` over all branches -/
+def tbeNormalize (r : T) (nboot : Nat) (sups : List Rat) : List Rat :=
+  List.zipWith (Gotree.C10.normalize (Gotree.C10.ntips r) nboot) r.splits sups
 
 /-- The observed run, as the oracle sees it. -/
 structure Run where
